@@ -23,8 +23,6 @@ open Shroud.Lines (isPySpace Res Item)
 abbrev Str := List Char
 abbrev Path := List Str
 
-deriving instance DecidableEq for Shroud.Lines.Item
-
 /-! ### string primitives -/
 
 /-- Python `str.rstrip()`. -/
@@ -187,14 +185,38 @@ def readAll : Dict → List (List Str) → Res Dict
     | .crash e => .crash e
     | .ok d' => readAll d' fs
 
+/-- `dst[key] = {}` unless a dictionary is there already (`p = parent ++ [key]`);
+    a leaf in that place keeps its position and becomes an empty dictionary. -/
+def setDict (d : Dict) (p : Path) : Dict :=
+  match d.lookup p with
+  | none => d ++ [(p, .dict)]
+  | some .dict => d
+  | some (.leaf _) => d.map (fun e => if e.1 = p then (p, Val.dict) else e)
+
+/-- One assignment of `main.add_splicer_code`. -/
+def mergeEntry (d : Dict) (e : Path × Val) : Dict :=
+  match e.2 with
+  | .leaf b => setLeaf d e.1 b
+  | .dict => setDict d e.1
+
+/-- `main.add_splicer_code(splicers[lang], splicer_code[lang])`: the recursive
+    merge visits the `splicer_code` mapping depth first, i.e. its flat entries
+    in order (every level before what hangs below it; the `__line__` keys of the
+    YAML loader are skipped by the code and are not part of `code`). -/
+def mergeCode (d : Dict) (code : Dict) : Dict := code.foldl mergeEntry d
+
 /-- `main_with_args`, one language: command-line splicer files, then the YAML
-    `splicer:` files, all into one dictionary; then
-    `splicers.update(allinput["splicer_code"])` *replaces* the language's whole
-    dictionary when `splicer_code` has an entry for it. -/
+    `splicer:` files, all into one dictionary; then the `splicer_code` entry of
+    the language is merged in block by block.  (Before the `fix:` commit in
+    /repo, `splicers.update(splicer_code)` *replaced* the language's whole
+    dictionary.) -/
 def collectSplicers (cmdFiles yamlFiles : List (List Str)) (code : Option Dict) : Res Dict :=
   match readAll [] (cmdFiles ++ yamlFiles) with
   | .crash e => .crash e
-  | .ok d => .ok (code.getD d)
+  | .ok d =>
+    match code with
+    | none => .ok d
+    | some c => .ok (mergeCode d c)
 
 /-- `get_splicer_based_on_suffix`: language key of a file extension
     (`none`: the file is silently ignored). -/
